@@ -56,6 +56,9 @@ def finding_witnesses():
         main = [wr(call(fname, rd(0))), wr(call(fname, num(2))),
                 ("if", [(("cmp", ">", rd(0), num(1)), [wr(num(1), 1)])], [wr(num(2), 1)])]
         return prog([], [f], main, ["witness"])
+    # a function named like a logic type that the program also writes: label removal replaces the operand
+    st = fn("Setting", 1, [], [wr(var("p0")), wr(num(1), 6, "On")], False)
+    out.append(("witness/function_named_like_logic_type", prog([], [st], [("expr", call("Setting", rd(0))), ("expr", call("Setting", num(4)))], ["witness"])))
     first = impl.compile_one((build("zz0").text(), impl.vec(append_version=False, inline_functions=False)))
     m = re.search(r"^(lbelse\d+):", first.get("code", ""), re.M)
     if m:
@@ -218,6 +221,11 @@ def dup_clash(labelled_code, p):
         k = clash_kind(f"label '{d}' is defined more than once", p)
         if k:
             return k
+    if p is not None:
+        from ..ic10 import enum_tables
+        bare = enum_tables()[0]
+        if any(f.name in bare for f in p.funcs):
+            return "function_named_like_logic_type"
     return None
 
 
